@@ -125,6 +125,9 @@ CRONS = ["* * * * *", "*/2 * * * *", "*/3 * * * *", "1-59/2 * * * *", "*/5 * * *
          "*/7 * * * *", "10-20 * * * *"]
 
 
+BAD_CRONS = ["* * * *", "bad", "* * * * * *", "", "*/x * * * *", "*/0 * * * *", "0 */0 * * *", "every minute"]
+
+
 def gen_c15_spec(rng: random.Random, minutes_max: int) -> Dict[str, Any]:
     base = rng.randint(S.to_us(datetime(2020, 1, 1)), S.to_us(datetime(2030, 1, 1)))
     base -= base % M
@@ -162,6 +165,12 @@ def gen_c15_spec(rng: random.Random, minutes_max: int) -> Dict[str, Any]:
             if rng.random() < 0.35:
                 add_at = round(rng.random() * minutes * 60, 3)
             items.append({"id": f"o{sid}", "time_us": T, "tz": rng.choice([None, "utc", "zi"]), "add_at": add_at})
+            sid += 1
+        if rng.random() < 0.15:
+            # a schedule whose expression is not a cron expression (a typo in a stored schedule): it is never due, and
+            # the other schedules of the source and later polls are not affected
+            items.insert(rng.randint(0, len(items)), {"id": f"x{sid}", "cron": rng.choice(BAD_CRONS), "offset": rng.choice([None, None, 3600, "Europe/Berlin"]),
+                                                     "add_at": 0.0, "bad": True})
             sid += 1
         npolls = minutes + 2
         src: Dict[str, Any] = {"items": items, "lat": rng.choice([0, 0, 0.001, 0.2, 0.9])}
@@ -384,8 +393,10 @@ def oracle_c15(rec: Rec, info: Dict[str, Any], spec: Dict[str, Any]) -> "tuple[L
             if loc is None:
                 cnt["tz_skipped"] += 1
                 continue
-            want, amb = S.cron_match(it["cron"], loc)
+            want, amb = (False, False) if it.get("bad") else S.cron_match(it["cron"], loc)
             got = sends_by_round.get(n, 0)
+            if it.get("bad"):
+                cnt["unparsable_cron_evaluations"] += 1
             cnt["cron_minutes_checked"] += 1
             if amb:
                 continue
